@@ -266,6 +266,18 @@ def r4(ctx, R='R20.4', names=('dist_in_2r', 'too_far')):
             ok = {r[0] for r in roots if r} == {('param', 1), ('param', 2)}
         ctx.check(ok, R, b, name + ':sum-of-both-radii', detail, '%s measures against %s (expected the sum of the '
                   'bounding radii of BOTH boxes)' % (name, detail), adds[0][1] if adds else '')
+        # the verdict comes from that comparison on every path: a shortcut that answers without the bounding radii
+        # (e.g. an axis test in the wrong frame for "parallel" boxes) can call overlapping boxes far
+        n += 1
+        bad = []
+        for bb_, kind_, payload_ in result_assignments(b):
+            if kind_ == 'expr' and len([y for y in payload_.walk() if y.kind == 'call' and
+                                        y.name.rsplit('::', 1)[-1] == 'get_radius']) >= 2:
+                continue
+            bad.append((kind_, payload_))
+        ctx.check(not bad, R, b, name + ':verdict-only-from-the-radius-comparison', '',
+                  '%s can answer %s without comparing the centre distance with the sum of both bounding radii' % (
+                      name, [repr(x[1])[:80] for x in bad]))
         for coord in ('xc', 'yc'):
             mine = [e for e, ln in subs if all(a.strip().fields[-1:] == (coord,) for a in e.args)]
             n += 1
